@@ -123,7 +123,9 @@ impl MultiRecordLog {
             record_log_writer,
             in_mem_queues,
             next_persist: persist_policy.into(),
-            multi_record_spare_buffer: Vec::new(),
+            // pre-sized: a buffer that is re-allocated while it holds symbolic bytes loses its
+            // constant length fields for the symbolic executor
+            multi_record_spare_buffer: Vec::with_capacity(256),
         }
     }
 
